@@ -194,7 +194,11 @@ func (d *Date) UnmarshalBinary(data []byte) error {
 	if l != 7 { // version(1)+year(4)+month(1)+day(1)
 		return fmt.Errorf("date.Date.UnmarshalBinary: %w: expected 7 instead of %d", ErrInvalidLength, l)
 	}
-	d.year = (int32(data[1])<<24 | int32(data[2])<<16 | int32(data[3])<<8 | int32(data[4])) - 1
+	year := int32(data[1])<<24 | int32(data[2])<<16 | int32(data[3])<<8 | int32(data[4])
+	if !validDate(int(year), int(data[5]), int(data[6])) {
+		return fmt.Errorf("date.Date.UnmarshalBinary: %w: month %d, day %d", ErrInvalidDate, data[5], data[6])
+	}
+	d.year = year - 1
 	d.month = data[5] - 1
 	d.day = data[6] - 1
 	return nil
